@@ -90,3 +90,75 @@ for k in (None, 0, 1, 2, 3):
     c.native = False
     c.interp_flags = {"class_call_models": {_Elem: lambda it, args, kw: SObj(_Elem, f_fresh=True, f_args=list(args))}}
     con.cases.append(c)
+
+
+# ---- Array._assign: what may be assigned to an array-typed object as a whole (C05 / C06 / C13) ----------------------------------
+# Every Array[T, N] is declared as its own VHDL array type, `dst <= src;` is emitted without conversion: the source must be an
+# array with EXACTLY as many elements (symbolic counts) whose element type may be assigned to the target's; a list / tuple needs one
+# compatible entry per element; Null / Full are accepted; everything else is rejected.  The stored elements are not changed
+# (the element assignment is a trial on fresh element objects).
+class _ElemT:
+    """element type: _assign of a fresh element records what it was tried with; 'BAD' is incompatible"""
+
+
+_ElemT._assign = lambda self, v: None
+
+
+def _elem_assign(it, self, v):
+    it.trials.append(v)
+    bad = v == "BAD" or (isinstance(v, SObj) and v.kind is _ElemOther)
+    if bad:
+        it.raise_(AssertionError, "incompatible element")
+    return None
+
+
+class _ElemOther:
+    """another element type, not assignable to _ElemT"""
+
+
+from pyvc import interp as I  # noqa: E402
+
+I.register_model(_ElemT._assign, _elem_assign)
+
+
+def assign_spec(how):
+    def spec(sx, self, value):
+        it = sx.it
+        real = sx.real_args[0]
+        n = it.case_env["n"]
+        if how == "array":
+            m = it.case_env["m"]
+            sx.require(sym.eq(m, n))
+        if how in ("array-other-elemtype", "list-short", "list-long", "list-bad-entry", "int", "str"):
+            sx.reject(AssertionError)
+
+        def holds(res):
+            return res is None and real.fields["_value"] == ["stored0"]
+
+        return C.Pred(holds, "accepted; the stored elements are untouched")
+
+    return spec
+
+
+con = contract("cohdl._core._array:Array._assign", PROPS + ("C05", "C06"))
+for how in ("array", "array-other-elemtype", "list-exact", "list-short", "list-long", "list-bad-entry", "null", "full", "int", "str"):
+    def mk_val(env, how=how):
+        if how == "array":
+            return SObj(Array, _value=None, _elemtype_=_ElemT, _count_=env["m"])
+        if how == "array-other-elemtype":
+            return SObj(Array, _value=None, _elemtype_=_ElemOther, _count_=2)
+        return {"list-exact": ["x", "y"], "list-short": ["x"], "list-long": ["x", "y", "z"], "list-bad-entry": ["x", "BAD"], "null": Null, "full": Full, "int": 3, "str": "01"}[how]
+
+    fixed = how != "array"
+    c = Case(f"assign:{how}", [Built([], (lambda fixed: lambda env: SObj(Array, _value=["stored0"], _elemtype_=_ElemT, _count_=2 if fixed else env["n"]))(fixed), lambda a: "<array>", lambda a: None),
+                               Built([], mk_val, lambda a: "<value>", lambda a: None)], assign_spec(how))
+    c.extra_shapes = [PyInt("n", 1, None, 1, 6), PyInt("m", 1, None, 1, 6)]
+    c.native = False
+    c.may_reject = None
+    c.interp_flags = {"class_call_models": {_ElemT: lambda it, args, kw: SObj(_ElemT, f_fresh=True), _ElemOther: lambda it, args, kw: SObj(_ElemOther, f_fresh=True)}}
+
+    def _setup(it, ctx, args, env):
+        it.trials = []
+
+    c.setup = _setup
+    con.cases.append(c)
